@@ -12,8 +12,8 @@ RULE = ('generated rulesets (30-6000 guesses, Markov levels interleaved with ord
         'as a subprocess - stdout bytes must equal the recorded guess stream joined by newlines (no banner, no diagnostics), also on error paths (unwritable '
         'save file, bad --limit, unloadable ruleset). non-trivial = N strictly inside a pre-terminal or a Markov level; distinct by (ruleset hash, flags, N)')
 SHARDS = {'quick': 4, 'thorough': 16}
-N = {'quick': 6, 'thorough': 150}
-SPAWNS = {'quick': 4, 'thorough': 10}
+N = {'quick': 6, 'thorough': 60}
+SPAWNS = {'quick': 4, 'thorough': 5}
 
 def gen_case(rng):
     if rng.random() < 0.6:
